@@ -351,7 +351,6 @@ func kvPairing(c *eng.Ctx, rule string) {
 	}
 }
 
-
 // globalRoot follows field/index addressing and loads back to a package-level
 // variable, if the memory written is rooted at one.
 func globalRoot(v ssa.Value) *ssa.Global {
@@ -388,7 +387,6 @@ func globalRoot(v ssa.Value) *ssa.Global {
 	}
 	return nil
 }
-
 
 func c14Audit(c *eng.Ctx) {
 	p := c.P
